@@ -524,6 +524,8 @@ def plan(tier, seed):
             tasks.append({'direction': list(d), 'name': name, 'tier': tier,
                           'seed': seed, 'cost': 10 if name else 16})
     if tier == 'thorough':
+        tasks.append({'kind': 'contracts', 'cost': 60})
+    if tier == 'thorough':
         tasks.append({'kind': 'chi2', 'seed': seed, 'cost': 60})
     return tasks
 
@@ -641,6 +643,10 @@ def run_chi2(task, out):
 
 
 def run_task(task, out):
+    if task.get('kind') == 'contracts':
+        from pv.pytest_contracts import run_contract_suite
+        run_contract_suite(out, 'probability', 'PauliErrorModel')
+        return
     if task.get('kind') == 'chi2':
         run_chi2(task, out)
     else:
